@@ -258,6 +258,9 @@ def long_series(draw, dtypes, nmax, grouped=False):
     dtype = draw(st.sampled_from(dtypes))
     n = draw(st.one_of(st.integers(1, 12), st.integers(1, nmax)))
     nd = draw(st.sampled_from([-9999, 0, -32768, 255, 7, 3, 100]))
+    if dtype in ("float32", "int64") and draw(st.integers(0, 4)) == 0:
+        # sentinels at the edge of the dtype (GDAL / netCDF defaults): many orders of magnitude above the data
+        nd = draw(st.sampled_from([-3.4028234663852886e38, 9.969209968386869e36, -1.0000000200408773e20] if dtype == "float32" else [-9223372036854775808, -9223372036854775808, 2 ** 62]))
     vmax = min(DT_BOUNDS[dtype], (2 ** 24 - 1) // max(n, 1))
     p_nd = draw(st.sampled_from([0, 10, 30, 60]))
     x = [nd if draw(st.integers(0, 99)) < p_nd else draw(st.integers(-vmax, vmax)) for _ in range(n)]
